@@ -1813,7 +1813,14 @@ func (n *node) unregisterProcess(p *process, reason error) {
 
 	p.events.Range(func(k, _ any) bool {
 		ev := gen.Event{Name: k.(gen.Atom), Node: p.node.name}
-		n.events.Delete(ev)
+		// delete the entry only if it is (still) the registration of this process
+		value, exist := n.events.Load(ev)
+		if exist == false || value.(*eventOwner).producer != p.pid {
+			return true
+		}
+		if n.events.CompareAndDelete(ev, value) == false {
+			return true
+		}
 		lib.VerifPoint("proc.unreg.event", ev)
 		n.RouteTerminateEvent(ev, reason)
 		return true
@@ -1933,7 +1940,11 @@ func (n *node) unregisterEvent(name gen.Atom, pid gen.PID) error {
 		return gen.ErrEventOwner
 	}
 
-	n.events.Delete(ev)
+	// delete exactly the entry that was checked: a concurrent unregistration may have removed it
+	// already and somebody else may have registered the name again
+	if n.events.CompareAndDelete(ev, value) == false {
+		return gen.ErrEventUnknown
+	}
 	n.RouteTerminateEvent(ev, gen.ErrUnregistered)
 	return nil
 }
